@@ -17,8 +17,9 @@ type Spec struct {
 	Mode      string   `json:"mode"` // batch | replay | minimize | show
 	Prop      string   `json:"prop"`
 	Tier      string   `json:"tier"`
-	Seeds     []uint64 `json:"seeds,omitempty"`
-	SeedFrom  uint64   `json:"seed_from"`
+	SeedBase  uint64   `json:"seed_base"`
+	IndexFrom uint64   `json:"index_from"`
+	Stride    uint64   `json:"stride"`
 	Count     uint64   `json:"count"`
 	Out       string   `json:"out"`
 	Replay    string   `json:"replay,omitempty"`
@@ -64,7 +65,7 @@ type Summary struct {
 	DetMismatch []uint64           `json:"det_mismatch,omitempty"`
 	HarnessErrs []string           `json:"harness_errs,omitempty"`
 	Leaked      int                `json:"leaked"`
-	LastSeed    uint64             `json:"last_seed"`
+	LastIndex   uint64             `json:"last_index"`
 	Done        bool               `json:"done"`
 	Extra       map[string]float64 `json:"extra,omitempty"`
 }
@@ -106,6 +107,8 @@ func TestSim(t *testing.T) {
 		replay(t, spec)
 	case "minimize":
 		minimize(t, spec)
+	case "hashes":
+		hashes(t, spec)
 	default:
 		t.Fatalf("unknown mode %q", spec.Mode)
 	}
@@ -124,11 +127,9 @@ func batch(t *testing.T, spec *Spec) {
 	sigs := map[string]struct{}{}
 	sites := map[string]struct{}{}
 	pairs := map[string]struct{}{}
-	seeds := spec.Seeds
-	if len(seeds) == 0 {
-		for i := uint64(0); i < spec.Count; i++ {
-			seeds = append(seeds, spec.SeedFrom+i)
-		}
+	stride := spec.Stride
+	if stride == 0 {
+		stride = 1
 	}
 	deadline := time.Now().Add(time.Duration(spec.BudgetMs) * time.Millisecond)
 	maxViol := spec.MaxViol
@@ -150,10 +151,12 @@ func batch(t *testing.T, spec *Spec) {
 		sum.Done = done
 		writeJSON(spec.Out, sum)
 	}
-	for i, seed := range seeds {
+	for i := 0; uint64(i) < spec.Count; i++ {
 		if spec.BudgetMs > 0 && time.Now().After(deadline) {
 			break
 		}
+		index := spec.IndexFrom + uint64(i)*stride
+		seed := RunSeed(spec.SeedBase, index)
 		sc := prop.Gen(seed, spec.Tier)
 		var res props.RunResult
 		keepSites := i%16 == 0
@@ -161,7 +164,7 @@ func batch(t *testing.T, spec *Spec) {
 			res = props.RunOne(t, spec.Prop, seed, sc, props.RunOpts{KeepSites: keepSites, KeepTrace: spec.KeepTrace})
 		})
 		sum.Runs++
-		sum.LastSeed = seed
+		sum.LastIndex = index
 		sum.Steps += res.Steps
 		sum.Switches += res.Switches
 		sum.SimTimeNs += res.SimTimeNs
@@ -221,6 +224,44 @@ func batch(t *testing.T, spec *Spec) {
 		}
 	}
 	flush(true)
+}
+
+// RunSeed derives the seed of run #index of a batch from VERIF_SEED (splitmix64).
+func RunSeed(base, index uint64) uint64 {
+	z := base*0x9e3779b97f4a7c15 + index + 0x632be59bd9b4e019
+	z = (z ^ (z >> 30)) * 0xbf58476d1ce4e5b9
+	z = (z ^ (z >> 27)) * 0x94d049bb133111eb
+	z ^= z >> 31
+	return z >> 1
+}
+
+// hashes runs a range of indices and reports the trace hash of each
+// (determinism self-test: the driver diffs the output of many processes).
+func hashes(t *testing.T, spec *Spec) {
+	prop := props.Lookup(spec.Prop)
+	if prop == nil {
+		t.Fatalf("unknown property %q", spec.Prop)
+	}
+	out := map[string]string{}
+	stride := spec.Stride
+	if stride == 0 {
+		stride = 1
+	}
+	for i := uint64(0); i < spec.Count; i++ {
+		index := spec.IndexFrom + i*stride
+		seed := RunSeed(spec.SeedBase, index)
+		sc := prop.Gen(seed, spec.Tier)
+		var res props.RunResult
+		runIn(t, fmt.Sprintf("s%d", seed), func(t *testing.T) {
+			res = props.RunOne(t, spec.Prop, seed, sc, props.RunOpts{})
+		})
+		v := ""
+		if len(res.Violations) > 0 {
+			v = " V:" + res.Violations[0].Clause + "/" + res.Violations[0].Key
+		}
+		out[fmt.Sprint(index)] = res.TraceHash + v + " " + res.HarnessErr
+	}
+	writeJSON(spec.Out, out)
 }
 
 func tail(l []string, n int) []string {
